@@ -118,20 +118,25 @@ Inductive cop :=
 (* replace / insert_one / replace_last / delete: the statement, then conditional_commit(1) *)
 Definition single (q : stmt) : list smicro := [SExec q; SCondCommit 1].
 
-(* for e in events_upsert: self.replace(bucket_id, e.id, e) *)
+(* for e in events_upsert: self._replace(bucket_id, e.id, e)     (the UPDATE alone: since
+   a00ceb1 the upserts are counted by insert_many's one conditional_commit, below) *)
 Definition upsert_script (b : Z) (es : list event) : list smicro :=
   flat_map (fun e => match eid e with
-                     | Some i => single (QUpdateEvent b i e)
+                     | Some i => [SExec (QUpdateEvent b i e)]
                      | None => []
                      end) es.
 
-(* try: executemany(INSERT ..., event_rows)  finally: conditional_commit(len(event_rows)).
-   [rows] = all rows handed to executemany, [sent] = those before the row that raises at
-   bind time (all of them in a normal call).  With an unknown bucket the very first row is
-   rejected (NOT NULL bucketrow) and nothing goes through. *)
-Definition bulk_script (c : sqstate) (b : Z) (rows sent : list event) : list smicro :=
+(* events_upsert = [e for e in events if e.id is not None];  len(events_upsert) *)
+Definition n_upserts (es : list event) : nat := length (filter (fun e => negb (no_id e)) es).
+
+(* try: <the upserts>; executemany(INSERT ..., event_rows)
+   finally: conditional_commit(len(events_upsert) + len(event_rows)).
+   [nups] = len(events_upsert), [rows] = all rows handed to executemany, [sent] = those before
+   the row that raises at bind time (all of them in a normal call).  With an unknown bucket
+   the very first row is rejected (NOT NULL bucketrow) and nothing goes through. *)
+Definition bulk_script (c : sqstate) (b : Z) (nups : nat) (rows sent : list event) : list smicro :=
   let done := match sql_bucket_rowid c b with Some _ => sent | None => [] end in
-  [SExecMany (map (QInsertEvent b) done); SCondCommit (Z.of_nat (length rows))].
+  [SExecMany (map (QInsertEvent b) done); SCondCommit (Z.of_nat (nups + length rows))].
 
 (* the micro-steps of a call issued when the connection reads the tables [c] *)
 Definition sscript (c : sqstate) (o : cop) : list smicro :=
@@ -154,7 +159,7 @@ Definition sscript (c : sqstate) (o : cop) : list smicro :=
       | None => []                                (* NOT NULL bucketrow: IntegrityError *)
       end
   | Std (InsertMany b es) =>
-      upsert_script b es ++ bulk_script c b (filter no_id es) (filter no_id es)
+      upsert_script b es ++ bulk_script c b (n_upserts es) (filter no_id es) (filter no_id es)
   | Std (Replace b i e) => single (QUpdateEvent b i e)
   | Std (ReplaceLast b e) => single (QUpdateNewest b e)
   | Std (Delete b i) => single (QDeleteEvent b i)
@@ -162,14 +167,14 @@ Definition sscript (c : sqstate) (o : cop) : list smicro :=
   | Std (GetEvents _ limit _ _) => if limit =? 0 then [] else [SCommit; SRead]
   | Std (GetEventCount _ _ _) => [SCommit; SRead]
   | BulkOverflow b es k =>
-      (* the offending row is counted: len(event_rows) = the good rows + 1 *)
+      (* the offending row is counted: len(event_rows) = the good rows + 1; so are the upserts *)
       upsert_script b es ++
       [SExecMany (map (QInsertEvent b)
                       (match sql_bucket_rowid c b with
                        | Some _ => firstn k (filter no_id es)
                        | None => []
                        end));
-       SCondCommit (Z.of_nat (S (length (filter no_id es))))]
+       SCondCommit (Z.of_nat (n_upserts es + S (length (filter no_id es))))]
   end.
 
 (* the connection's own view after a micro-step / a script / a call (commits do not change it) *)
